@@ -14,6 +14,13 @@ DEFAULT_REPO = Path(os.environ.get('FJVERIF_REPO', '/repo'))
 FuncNode = Union[ast.FunctionDef, ast.AsyncFunctionDef]
 
 
+# builtins without side effects: a call on pure operands may be substituted / duplicated by the normalisers
+PURE_BUILTINS = ('len', 'int', 'bool', 'hex', 'abs', 'min', 'max')
+
+# functions annotated `-> NoReturn` in any module parsed so far: a call of one ends the path like a raise
+NORETURN_NAMES: Set[str] = set()
+
+
 class Repo:
     """Source access with an optional in-memory overlay (used by the self-test to analyse
     mutated variants without touching /repo)."""
@@ -65,6 +72,10 @@ class Repo:
                     child._parent = parent            # type: ignore[attr-defined]
             tree._rel = rel                            # type: ignore[attr-defined]
             self._mods[rel] = tree
+            for d in ast.walk(tree):
+                if isinstance(d, (ast.FunctionDef, ast.AsyncFunctionDef)) and d.returns is not None and \
+                        ast.unparse(d.returns).split('.')[-1] in ('NoReturn', 'Never'):
+                    NORETURN_NAMES.add(d.name)
         return self._mods[rel]
 
     def func(self, rel: str, qualname: str) -> FuncNode:
@@ -174,6 +185,24 @@ _KNOWN_ATTRS = {
 }
 
 
+class _Overlay:
+    """an environment with a few extra bindings on top (comprehension variables)."""
+
+    def __init__(self, base: Any, extra: Dict[str, Any]):
+        self.base, self.extra = base, extra
+
+    def lookup(self, name: str) -> Any:
+        if name in self.extra:
+            return self.extra[name]
+        if self.base is None:
+            raise NotConstant(name)
+        if isinstance(self.base, dict):
+            if name in self.base:
+                return self.base[name]
+            raise NotConstant(name)
+        return self.base.lookup(name)
+
+
 def fold(node: ast.AST, env: Any = None) -> Any:
     """Tiny constant evaluator for literals, arithmetic, ord(), struct.calcsize, names resolved via env."""
     if isinstance(node, ast.Constant):
@@ -229,8 +258,29 @@ def fold(node: ast.AST, env: Any = None) -> Any:
             elif isinstance(v, ast.FormattedValue):
                 parts.append(str(fold(v.value, env)))
         return ''.join(parts)
+    if isinstance(node, (ast.GeneratorExp, ast.ListComp, ast.SetComp)) and len(node.generators) == 1 \
+            and isinstance(node.generators[0].target, ast.Name) and not node.generators[0].is_async:
+        # a comprehension over a foldable iterable (range(..), a literal) is a literal written with a rule
+        g = node.generators[0]
+        items = fold(g.iter, env)
+        if not isinstance(items, (list, tuple, frozenset, range)) or len(items) > 4096:
+            raise NotConstant(ast.unparse(node)[:60])
+        vals = []
+        for it_ in (sorted(items) if isinstance(items, frozenset) else items):
+            e2 = _Overlay(env, {g.target.id: it_})
+            if all(fold(c, e2) for c in g.ifs):
+                vals.append(fold(node.elt, e2))
+        return frozenset(vals) if isinstance(node, ast.SetComp) else vals
     if isinstance(node, ast.Call):
         fn = dotted(node.func)
+        if fn == 'range' and 1 <= len(node.args) <= 3 and not node.keywords:
+            a = [fold(x, env) for x in node.args]
+            if all(isinstance(x, int) for x in a) and len(range(*a)) <= 4096:
+                return list(range(*a))
+            raise NotConstant(ast.unparse(node))
+        if fn in ('tuple', 'list', 'sorted') and len(node.args) == 1 and not node.keywords:
+            v = fold(node.args[0], env)
+            return sorted(v) if fn == 'sorted' else (tuple(v) if fn == 'tuple' else list(v))
         if fn == 'ord' and len(node.args) == 1:
             return ord(fold(node.args[0], env))
         if fn in ('struct.calcsize', 'calcsize') and len(node.args) == 1:
@@ -494,9 +544,21 @@ def eval_int_expr(e: ast.AST, env: Dict[str, int]) -> int:
         return eval_int_expr(e.body if eval_int_expr(e.test, env) else e.orelse, env)
     if isinstance(e, ast.Call) and isinstance(e.func, ast.Attribute) and e.func.attr == 'bit_length' and not e.args:
         return eval_int_expr(e.func.value, env).bit_length()
-    if isinstance(e, ast.Compare) and len(e.ops) == 1:
-        a, b = eval_int_expr(e.left, env), eval_int_expr(e.comparators[0], env)
-        return int({ast.Lt: a < b, ast.LtE: a <= b, ast.Gt: a > b, ast.GtE: a >= b, ast.Eq: a == b, ast.NotEq: a != b}[type(e.ops[0])])
+    if isinstance(e, ast.Compare):
+        left = eval_int_expr(e.left, env)
+        for op_, rhs in zip(e.ops, e.comparators):
+            b = eval_int_expr(rhs, env)
+            a = left
+            tab = {ast.Lt: a < b, ast.LtE: a <= b, ast.Gt: a > b, ast.GtE: a >= b, ast.Eq: a == b, ast.NotEq: a != b}
+            if type(op_) not in tab:
+                raise AnalysisError(f'eval_int_expr: unsupported comparison {norm(e)[:60]}')
+            if not tab[type(op_)]:
+                return 0
+            left = b
+        return 1
+    if isinstance(e, ast.BoolOp):
+        vals = [eval_int_expr(v, env) for v in e.values]
+        return int(all(vals)) if isinstance(e.op, ast.And) else int(any(vals))
     raise AnalysisError(f'eval_int_expr: unsupported expression {norm(e)[:60]}')
 
 
@@ -725,12 +787,101 @@ def inline_pure_temps(fn: FuncNode) -> FuncNode:
     for st in new.body:
         st2 = Sub().visit(st)
         if isinstance(st2, ast.Assign) and len(st2.targets) == 1 and isinstance(st2.targets[0], ast.Name) \
-                and counts.get(st2.targets[0].id) == 1 and not any(isinstance(x, (ast.Call, ast.Await, ast.Yield)) for x in ast.walk(st2.value)) \
+                and counts.get(st2.targets[0].id) == 1 and not any(isinstance(x, (ast.Await, ast.Yield)) or (
+                    isinstance(x, ast.Call) and dotted(x.func) not in PURE_BUILTINS and not (
+                        isinstance(x.func, ast.Attribute) and x.func.attr == 'bit_length' and not x.args)) for x in ast.walk(st2.value)) \
                 and all(counts.get(x.id, 0) <= 1 for x in ast.walk(st2.value) if isinstance(x, ast.Name)):
             binds[st2.targets[0].id] = st2.value
             continue
         body.append(st2)
     new.body = body
+    return relink(ast.fix_missing_locations(new))
+
+
+def _class_chain(repo: 'Repo', rel: str, cls: Optional[str]) -> List[str]:
+    """cls and its base classes defined in the same module (method lookup order)."""
+    out: List[str] = []
+    todo = [cls] if cls else []
+    while todo:
+        c = todo.pop(0)
+        if c in out:
+            continue
+        try:
+            node = repo.cls(rel, c)
+        except AnalysisError:
+            continue
+        out.append(c)
+        todo += [dotted(b) for b in node.bases if dotted(b)]
+    return out
+
+
+def inline_pure_helpers(repo: 'Repo', rel: str, cls: Optional[str], fn: FuncNode, *, keep: Sequence[str] = (), depth: int = 3) -> FuncNode:
+    """a copy of fn in which expression-level uses of PRIVATE pure helpers of the same class (or its bases in the module) or module -
+    `self._h(a)`, `_h(a)`, and reads of a private @property `self._p` - are replaced by the helper's value: the helper body, after
+    its own single-use temporaries are substituted, is one `return <expr>`; arguments must be call-free expressions. An extracted
+    mask / offset / predicate helper then reads like the expression it was extracted from."""
+    chain = _class_chain(repo, rel, cls)
+
+    def find(name: str, method: bool) -> Optional[FuncNode]:
+        if method:
+            for c in chain:
+                if repo.has_func(rel, f'{c}.{name}'):
+                    return repo.func(rel, f'{c}.{name}')
+            return None
+        return repo.func(rel, name) if repo.has_func(rel, name) else None
+
+    def value_of(h: FuncNode, args: List[ast.expr], level: int) -> Optional[ast.expr]:
+        params = [a.arg for a in h.args.args]
+        if params and params[0] in ('self', 'cls'):
+            params = params[1:]
+        if len(params) != len(args) or h.args.vararg or h.args.kwarg or h.args.kwonlyargs:
+            return None
+        if any(isinstance(x, (ast.Call, ast.Await, ast.Yield, ast.NamedExpr)) for a in args for x in ast.walk(a)):
+            return None
+        h2 = inline_pure_temps(h)
+        body = [b for b in h2.body if not (isinstance(b, ast.Expr) and isinstance(b.value, ast.Constant))]
+        if len(body) != 1 or not isinstance(body[0], ast.Return) or body[0].value is None:
+            return None
+        b = dict(zip(params, args))
+
+        class Bind(ast.NodeTransformer):
+            def visit_Name(self, node: ast.Name) -> ast.AST:
+                if isinstance(node.ctx, ast.Load) and node.id in b:
+                    return clone(b[node.id])
+                return node
+        val = Bind().visit(clone(body[0].value))
+        return Sub(level - 1).visit(val) if level > 1 else val
+
+    def is_property(h: FuncNode) -> bool:
+        return any(dotted(d) in ('property', 'functools.cached_property', 'cached_property') for d in h.decorator_list)
+
+    class Sub(ast.NodeTransformer):
+        def __init__(self, level: int):
+            self.level = level
+
+        def visit_Call(self, node: ast.Call) -> ast.AST:
+            self.generic_visit(node)
+            d = dotted(node.func)
+            name = d.split('.')[-1] if d else ''
+            if not name.startswith('_') or name.startswith('__') or name in keep or node.keywords:
+                return node
+            h = find(name, True) if d == f'self.{name}' else (find(name, False) if d == name else None)
+            if h is None or is_property(h):
+                return node
+            v = value_of(h, list(node.args), self.level)
+            return v if v is not None else node
+
+        def visit_Attribute(self, node: ast.Attribute) -> ast.AST:
+            self.generic_visit(node)
+            if isinstance(node.ctx, ast.Load) and isinstance(node.value, ast.Name) and node.value.id == 'self' and node.attr.startswith('_') \
+                    and node.attr not in keep:
+                h = find(node.attr, True)
+                if h is not None and is_property(h):
+                    v = value_of(h, [], self.level)
+                    return v if v is not None else node
+            return node
+    new = clone(fn)
+    new.body = [Sub(depth).visit(st) for st in new.body]
     return relink(ast.fix_missing_locations(new))
 
 
@@ -753,7 +904,9 @@ def expand_private_calls(repo: 'Repo', rel: str, fn: FuncNode, cls: Optional[str
         return None
 
     def pure(e: ast.AST) -> bool:
-        return not any(isinstance(x, (ast.Call, ast.Await, ast.Yield, ast.NamedExpr)) for x in ast.walk(e))
+        # calls of side-effect free builtins on pure arguments may be duplicated by the substitution
+        return not any(isinstance(x, (ast.Await, ast.Yield, ast.NamedExpr)) or
+                       (isinstance(x, ast.Call) and dotted(x.func) not in ('len', 'int', 'bool', 'hex', 'abs', 'min', 'max')) for x in ast.walk(e))
 
     def bind(h: FuncNode, call: ast.Call) -> Optional[Dict[str, ast.expr]]:
         params = [a.arg for a in h.args.args]
@@ -819,6 +972,11 @@ def expand_private_calls(repo: 'Repo', rel: str, fn: FuncNode, cls: Optional[str
                 out.extend(expand(hb, level - 1))
             elif isinstance(st, ast.Assign) and len(hb) == 1 and isinstance(hb[0], ast.Return) and hb[0].value is not None:
                 st.value = hb[0].value
+                out.append(st)
+            elif isinstance(st, ast.Assign) and len(hb) > 1 and isinstance(hb[-1], ast.Return) and hb[-1].value is not None and only_tail_return(h):
+                # `x = self._h(..)` with a straight helper ending in `return E`: the helper's statements, then `x = E`
+                out.extend(expand(hb[:-1], level - 1))
+                st.value = hb[-1].value
                 out.append(st)
             else:
                 out.append(st)
@@ -1025,4 +1183,446 @@ def membership_searches(fn: FuncNode, seq: str) -> List[Tuple[ast.expr, List[ast
             g = n.test.args[0].generators[0]
             names = [norm(e) for e in (g.target.elts if isinstance(g.target, ast.Tuple) else [g.target])]
             out.append((n.test.args[0].elt, n.body, n.lineno, names))
+    return out
+
+
+def calls_in_order(node: ast.AST) -> List[ast.Call]:
+    """the calls of a (possibly rewritten) tree in evaluation-like pre-order of the tree, independent of line numbers (an inlined
+    helper keeps the line numbers of its own source)."""
+    out: List[ast.Call] = []
+
+    def rec(n: ast.AST) -> None:
+        for ch in ast.iter_child_nodes(n):
+            rec(ch)
+        if isinstance(n, ast.Call):
+            out.append(n)
+    # statements in order; inside one statement arguments are evaluated before the call itself
+    rec(node)
+    return out
+
+
+def unroll_literal_loops(fn: FuncNode) -> FuncNode:
+    """a copy of fn in which `for x in (a, b, ..): BODY` over a literal tuple / list of call-free expressions, with a BODY that has
+    no break / continue / else and never re-binds x, is replaced by BODY[x := a]; BODY[x := b]; ..."""
+    new = clone(fn)
+
+    class Sub(ast.NodeTransformer):
+        def __init__(self, name: str, val: ast.expr):
+            self.name, self.val = name, val
+
+        def visit_Name(self, node: ast.Name) -> ast.AST:
+            if isinstance(node.ctx, ast.Load) and node.id == self.name:
+                return clone(self.val)
+            return node
+
+    def unroll(stmts: List[ast.stmt]) -> List[ast.stmt]:
+        out: List[ast.stmt] = []
+        for st in stmts:
+            for fld in ('body', 'orelse', 'finalbody'):
+                sub = getattr(st, fld, None)
+                if isinstance(sub, list) and sub and isinstance(sub[0], ast.stmt):
+                    setattr(st, fld, unroll(sub))
+            if isinstance(st, ast.Try):
+                for hd in st.handlers:
+                    hd.body = unroll(hd.body)
+            if isinstance(st, ast.For) and isinstance(st.target, ast.Name) and isinstance(st.iter, (ast.Tuple, ast.List)) and not st.orelse \
+                    and 0 < len(st.iter.elts) <= 8 \
+                    and not any(isinstance(x, (ast.Call, ast.Await, ast.Yield, ast.Starred)) for e in st.iter.elts for x in ast.walk(e)) \
+                    and not any(isinstance(x, (ast.Break, ast.Continue)) for b in st.body for x in ast.walk(b)) \
+                    and not any(isinstance(x, ast.Name) and isinstance(x.ctx, ast.Store) and x.id == st.target.id for b in st.body for x in ast.walk(b)):
+                for e in st.iter.elts:
+                    for b in st.body:
+                        out.append(Sub(st.target.id, e).visit(clone(b)))
+                continue
+            out.append(st)
+        return out
+    new.body = unroll(new.body)
+    return relink(ast.fix_missing_locations(new))
+
+
+def canonical_fn(repo: 'Repo', rel: str, qualname: str, *, keep: Sequence[str] = (), depth: int = 2) -> FuncNode:
+    """the function as the rules read it: private helpers expanded (statement level) and substituted (expression level), literal
+    loops unrolled, single-use call-free temporaries substituted. Behaviour-preserving re-spellings normalise alike."""
+    cls = qualname.rsplit('.', 1)[0] if '.' in qualname else None
+    fn = repo.func(rel, qualname)
+    fn = expand_private_calls(repo, rel, fn, cls, depth=depth, keep=keep)
+    fn = inline_pure_helpers(repo, rel, cls, fn, keep=keep)
+    fn = unroll_literal_loops(fn)
+    fn = inline_pure_temps(fn)
+    return fn
+
+
+def spread_literal_sequences(fn: FuncNode) -> FuncNode:
+    """a READING normaliser (it may duplicate the text of calls; use it to read structure, not to count effects): a copy of fn in which
+      - single-use-free temporaries are substituted (inline_pure_temps),
+      - `[E(x) for x in (a, b, c)]` over a literal tuple / list is the literal list `[E(a), E(b), E(c)]`,
+      - a local bound once, at the top level, to a literal list / tuple is substituted where it is zipped, iterated by a
+        comprehension or unpacked,
+      - `all(P(n, o) for n, o in zip([n1, n2], [o1, o2]))` is `P(n1, o1) and P(n2, o2)` (`any` -> or),
+      - `a, b = [X, Y]` is `a = X; b = Y`."""
+    new = inline_pure_temps(fn)
+
+    def subst(e: ast.AST, b: Dict[str, ast.expr]) -> Any:
+        class S(ast.NodeTransformer):
+            def visit_Name(self, node: ast.Name) -> ast.AST:
+                return clone(b[node.id]) if isinstance(node.ctx, ast.Load) and node.id in b else node
+        return S().visit(clone(e))
+
+    def lit(e: ast.AST) -> Optional[List[ast.expr]]:
+        return list(e.elts) if isinstance(e, (ast.List, ast.Tuple)) and not any(isinstance(x, ast.Starred) for x in e.elts) and len(e.elts) <= 12 else None
+
+    class Unroll(ast.NodeTransformer):
+        def comp(self, node: Any) -> Optional[List[ast.expr]]:
+            if len(node.generators) != 1 or node.generators[0].ifs or node.generators[0].is_async:
+                return None
+            g = node.generators[0]
+            items = lit(g.iter)
+            if items is not None and isinstance(g.target, ast.Name):
+                return [subst(node.elt, {g.target.id: it}) for it in items]
+            if isinstance(g.iter, ast.Call) and dotted(g.iter.func) == 'zip' and isinstance(g.target, ast.Tuple) \
+                    and all(isinstance(t, ast.Name) for t in g.target.elts) and len(g.iter.args) == len(g.target.elts):
+                cols = [lit(a) for a in g.iter.args]
+                if all(c is not None for c in cols) and len({len(c) for c in cols if c is not None}) == 1:
+                    n = len(cols[0] or [])
+                    return [subst(node.elt, {t.id: (cols[k] or [])[i] for k, t in enumerate(g.target.elts)}) for i in range(n)]   # type: ignore[attr-defined]
+            return None
+
+        def visit_ListComp(self, node: ast.ListComp) -> ast.AST:
+            self.generic_visit(node)
+            el = self.comp(node)
+            return ast.List(elts=el, ctx=ast.Load()) if el is not None else node
+
+        def visit_Call(self, node: ast.Call) -> ast.AST:
+            self.generic_visit(node)
+            if dotted(node.func) in ('all', 'any') and len(node.args) == 1 and not node.keywords:
+                a = node.args[0]
+                el = self.comp(a) if isinstance(a, (ast.GeneratorExp, ast.ListComp)) else lit(a)
+                if el:
+                    return ast.BoolOp(op=ast.And() if dotted(node.func) == 'all' else ast.Or(), values=el) if len(el) > 1 else el[0]
+            return node
+
+    for _ in range(2):
+        new.body = [Unroll().visit(st) for st in new.body]
+        # locals bound once to a literal sequence: substituted at zip / comprehension-iter / unpack positions
+        binds: Dict[str, ast.expr] = {}
+        counts: Dict[str, int] = {}
+        for n in ast.walk(new):
+            if isinstance(n, ast.Name) and isinstance(n.ctx, ast.Store):
+                counts[n.id] = counts.get(n.id, 0) + 1
+        for st in new.body:
+            if isinstance(st, ast.Assign) and len(st.targets) == 1 and isinstance(st.targets[0], ast.Name) and counts.get(st.targets[0].id) == 1 \
+                    and lit(st.value) is not None:
+                binds[st.targets[0].id] = st.value
+
+        class Spread(ast.NodeTransformer):
+            def visit_Call(self, node: ast.Call) -> ast.AST:
+                self.generic_visit(node)
+                if dotted(node.func) == 'zip':
+                    node.args = [clone(binds[a.id]) if isinstance(a, ast.Name) and a.id in binds else a for a in node.args]
+                return node
+
+            def visit_comprehension(self, node: ast.comprehension) -> ast.AST:
+                self.generic_visit(node)
+                if isinstance(node.iter, ast.Name) and node.iter.id in binds:
+                    node.iter = clone(binds[node.iter.id])
+                return node
+
+            def visit_Assign(self, node: ast.Assign) -> ast.AST:
+                self.generic_visit(node)
+                if isinstance(node.targets[0], ast.Tuple) and isinstance(node.value, ast.Name) and node.value.id in binds:
+                    node.value = clone(binds[node.value.id])
+                return node
+        new.body = [Spread().visit(st) for st in new.body]
+
+    def unpack(stmts: List[ast.stmt]) -> List[ast.stmt]:
+        out: List[ast.stmt] = []
+        for st in stmts:
+            for fld in ('body', 'orelse', 'finalbody'):
+                sub = getattr(st, fld, None)
+                if isinstance(sub, list) and sub and isinstance(sub[0], ast.stmt):
+                    setattr(st, fld, unpack(sub))
+            if isinstance(st, ast.Assign) and len(st.targets) == 1 and isinstance(st.targets[0], ast.Tuple) and lit(st.value) is not None \
+                    and len(st.targets[0].elts) == len(st.value.elts) and all(isinstance(t, ast.Name) for t in st.targets[0].elts):   # type: ignore[attr-defined]
+                tn = {t.id for t in st.targets[0].elts}     # type: ignore[attr-defined]
+                if not any(isinstance(x, ast.Name) and x.id in tn for v in st.value.elts for x in ast.walk(v)):    # type: ignore[attr-defined]
+                    for t, v in zip(st.targets[0].elts, st.value.elts):      # type: ignore[attr-defined]
+                        out.append(ast.copy_location(ast.Assign(targets=[t], value=v), st))
+                    continue
+            out.append(st)
+        return out
+    new.body = unpack(new.body)
+    # a sequence local that is no longer read is dropped
+    used = {n.id for n in ast.walk(new) if isinstance(n, ast.Name) and isinstance(n.ctx, ast.Load)}
+    new.body = [st for st in new.body if not (isinstance(st, ast.Assign) and len(st.targets) == 1 and isinstance(st.targets[0], ast.Name)
+                                               and st.targets[0].id not in used and lit(st.value) is not None)]
+    return relink(ast.fix_missing_locations(new))
+
+
+def specialize(fn: FuncNode, consts: Dict[str, Any]) -> FuncNode:
+    """a copy of fn partially evaluated for constant values of some names (a command string, a type letter): loads of those names
+    become the constants, comparisons between constants are folded, and `if` / conditional expressions with a constant test keep
+    only the branch taken."""
+    new = clone(fn)
+
+    class P(ast.NodeTransformer):
+        def visit_Name(self, node: ast.Name) -> ast.AST:
+            if isinstance(node.ctx, ast.Load) and node.id in consts:
+                return ast.copy_location(ast.Constant(value=consts[node.id]), node)
+            return node
+
+        def visit_Compare(self, node: ast.Compare) -> ast.AST:
+            self.generic_visit(node)
+            if len(node.ops) == 1 and isinstance(node.left, ast.Constant):
+                r = node.comparators[0]
+                op = node.ops[0]
+                if isinstance(r, ast.Constant) and isinstance(op, (ast.Eq, ast.NotEq)):
+                    return ast.copy_location(ast.Constant(value=(node.left.value == r.value) == isinstance(op, ast.Eq)), node)
+                if isinstance(r, (ast.Tuple, ast.List, ast.Set)) and all(isinstance(e, ast.Constant) for e in r.elts) and isinstance(op, (ast.In, ast.NotIn)):
+                    return ast.copy_location(ast.Constant(value=(node.left.value in [e.value for e in r.elts]) == isinstance(op, ast.In)), node)   # type: ignore[attr-defined]
+                if isinstance(r, ast.Constant) and isinstance(r.value, str) and isinstance(node.left.value, str) and isinstance(op, (ast.In, ast.NotIn)):
+                    return ast.copy_location(ast.Constant(value=(node.left.value in r.value) == isinstance(op, ast.In)), node)
+            return node
+
+        def visit_UnaryOp(self, node: ast.UnaryOp) -> ast.AST:
+            self.generic_visit(node)
+            if isinstance(node.op, ast.Not) and isinstance(node.operand, ast.Constant) and isinstance(node.operand.value, bool):
+                return ast.copy_location(ast.Constant(value=not node.operand.value), node)
+            return node
+
+        def visit_BoolOp(self, node: ast.BoolOp) -> ast.AST:
+            self.generic_visit(node)
+            is_and = isinstance(node.op, ast.And)
+            vals = []
+            for v in node.values:
+                if isinstance(v, ast.Constant) and isinstance(v.value, bool):
+                    if v.value != is_and:
+                        return ast.copy_location(ast.Constant(value=v.value), node)       # False in and / True in or decides
+                    continue
+                vals.append(v)
+            if not vals:
+                return ast.copy_location(ast.Constant(value=is_and), node)
+            if len(vals) == 1:
+                return vals[0]
+            node.values = vals
+            return node
+
+        def visit_IfExp(self, node: ast.IfExp) -> ast.AST:
+            self.generic_visit(node)
+            if isinstance(node.test, ast.Constant) and isinstance(node.test.value, bool):
+                return node.body if node.test.value else node.orelse
+            return node
+
+    def prune(stmts: List[ast.stmt]) -> List[ast.stmt]:
+        out: List[ast.stmt] = []
+        for st in stmts:
+            for fld in ('body', 'orelse', 'finalbody'):
+                sub = getattr(st, fld, None)
+                if isinstance(sub, list) and sub and isinstance(sub[0], ast.stmt):
+                    setattr(st, fld, prune(sub))
+            if isinstance(st, ast.Try):
+                for hd in st.handlers:
+                    hd.body = prune(hd.body)
+            if isinstance(st, ast.If) and isinstance(st.test, ast.Constant) and isinstance(st.test.value, bool):
+                out.extend(st.body if st.test.value else st.orelse)
+                continue
+            out.append(st)
+        return out
+    new.body = prune([P().visit(st) for st in new.body]) or [ast.Pass()]
+    return relink(ast.fix_missing_locations(new))
+
+
+def guard_clauses_to_blocks(fn: FuncNode) -> FuncNode:
+    """a copy of a VOID function (no `return <value>` anywhere) in which a top-level guard clause `if C: return` followed by REST
+    reads as `if not C: REST` - the early-return and the nested spelling of the same gate normalise alike."""
+    if any(isinstance(r, ast.Return) and r.value is not None and not (isinstance(r.value, ast.Constant) and r.value.value is None)
+           for r in walk_no_nested(fn)):
+        return fn
+    new = clone(fn)
+
+    def fix(stmts: List[ast.stmt]) -> List[ast.stmt]:
+        for i, st in enumerate(stmts):
+            if isinstance(st, ast.If) and not st.orelse and len(st.body) == 1 and isinstance(st.body[0], ast.Return) and i + 1 < len(stmts):
+                rest = fix(stmts[i + 1:])
+                blk = ast.copy_location(ast.If(test=ast.UnaryOp(op=ast.Not(), operand=st.test), body=rest, orelse=[]), st)
+                return stmts[:i] + [blk]
+        return stmts
+    new.body = fix(new.body)
+    return relink(ast.fix_missing_locations(new))
+
+
+def element_rejections(fn: FuncNode, seq: str) -> List[Tuple[str, ast.expr, ast.Raise]]:
+    """the ways fn raises because SOME element of the sequence expression `seq` satisfies a predicate:
+      for x in SEQ: if P(x): raise ..          |  if any(P(x) for x in SEQ): raise ..
+      if [SEQ and] (min(SEQ) < A or max(SEQ) >= B): raise ..      (P(x) = x < A or x >= B)
+      v = next((x for x in SEQ if P(x)), None); if v is not None: raise ..
+    -> [(element variable, P as an expression over it, the raise)]; single-definition call-free temporaries are read through."""
+    out: List[Tuple[str, ast.expr, ast.Raise]] = []
+    f = inline_pure_temps(fn)
+
+    def raises_in(body: List[ast.stmt]) -> List[ast.Raise]:
+        return [r for st in body for r in ast.walk(st) if isinstance(r, ast.Raise)]
+
+    def single_def(name: str) -> Optional[ast.expr]:
+        vals = [n.value for n in ast.walk(f) if isinstance(n, ast.Assign) and len(n.targets) == 1 and isinstance(n.targets[0], ast.Name)
+                and n.targets[0].id == name]
+        return vals[0] if len(vals) == 1 else None
+    for n in ast.walk(f):
+        if isinstance(n, ast.For) and norm(n.iter) == seq and isinstance(n.target, ast.Name):
+            for st in n.body:
+                if isinstance(st, ast.If) and raises_in(st.body):
+                    out.append((n.target.id, st.test, raises_in(st.body)[0]))
+        if not isinstance(n, ast.If) or not raises_in(n.body):
+            continue
+        rz = raises_in(n.body)[0]
+        disj = push_not(n.test)
+        conj = list(disj.values) if isinstance(disj, ast.BoolOp) and isinstance(disj.op, ast.And) else [disj]
+        for cj in conj:
+            if isinstance(cj, ast.Call) and dotted(cj.func) == 'any' and len(cj.args) == 1 and isinstance(cj.args[0], (ast.GeneratorExp, ast.ListComp)):
+                g = cj.args[0]
+                if len(g.generators) == 1 and norm(g.generators[0].iter) == seq and isinstance(g.generators[0].target, ast.Name) and not g.generators[0].ifs:
+                    out.append((g.generators[0].target.id, g.elt, rz))
+            if isinstance(cj, ast.BoolOp) and isinstance(cj.op, ast.Or) and len(cj.values) == 2:
+                parts = {}
+                for v in cj.values:
+                    if isinstance(v, ast.Compare) and len(v.ops) == 1 and isinstance(v.left, ast.Call) and dotted(v.left.func) in ('min', 'max') \
+                            and len(v.left.args) == 1 and norm(v.left.args[0]) == seq:
+                        parts[dotted(v.left.func)] = v
+                if set(parts) == {'min', 'max'}:
+                    x = ast.Name(id='_x', ctx=ast.Load())
+                    p = ast.BoolOp(op=ast.Or(), values=[ast.Compare(left=x, ops=parts['min'].ops, comparators=parts['min'].comparators),
+                                                        ast.Compare(left=x, ops=parts['max'].ops, comparators=parts['max'].comparators)])
+                    out.append(('_x', ast.fix_missing_locations(p), rz))
+            if isinstance(cj, ast.Compare) and len(cj.ops) == 1 and isinstance(cj.ops[0], ast.IsNot) and isinstance(cj.left, ast.Name) \
+                    and isinstance(cj.comparators[0], ast.Constant) and cj.comparators[0].value is None:
+                d = single_def(cj.left.id)
+                if isinstance(d, ast.Call) and dotted(d.func) == 'next' and len(d.args) == 2 and isinstance(d.args[1], ast.Constant) \
+                        and d.args[1].value is None and isinstance(d.args[0], ast.GeneratorExp) and len(d.args[0].generators) == 1:
+                    g = d.args[0].generators[0]
+                    if norm(g.iter) == seq and isinstance(g.target, ast.Name) and norm(d.args[0].elt) == g.target.id and len(g.ifs) == 1:
+                        out.append((g.target.id, g.ifs[0], rz))
+    return out
+
+
+def normalize_sorted_sweeps(fn: FuncNode) -> FuncNode:
+    """a copy of fn in which
+      `S = E` directly followed by `S.sort()` (no key)                         reads as  `S = sorted(E)`, and
+      `for i in range(1, len(S)): A = S[i - 1]; B = S[i]; REST` (i unused in REST)  reads as  `for A, B in zip(S, S[1:]): REST`
+    - the two spellings of "sort, then look at neighbours"."""
+    new = clone(fn)
+
+    def fix(stmts: List[ast.stmt]) -> List[ast.stmt]:
+        out: List[ast.stmt] = []
+        i = 0
+        while i < len(stmts):
+            st = stmts[i]
+            for fld in ('body', 'orelse', 'finalbody'):
+                sub = getattr(st, fld, None)
+                if isinstance(sub, list) and sub and isinstance(sub[0], ast.stmt):
+                    setattr(st, fld, fix(sub))
+            nxt = stmts[i + 1] if i + 1 < len(stmts) else None
+            if isinstance(st, ast.Assign) and len(st.targets) == 1 and isinstance(st.targets[0], ast.Name) and isinstance(nxt, ast.Expr) \
+                    and isinstance(nxt.value, ast.Call) and dotted(nxt.value.func) == f'{st.targets[0].id}.sort' and not nxt.value.args \
+                    and not nxt.value.keywords:
+                val = st.value
+                if isinstance(val, ast.ListComp):
+                    val = ast.GeneratorExp(elt=val.elt, generators=val.generators)
+                st.value = ast.Call(func=ast.Name(id='sorted', ctx=ast.Load()), args=[val], keywords=[])
+                out.append(st)
+                i += 2
+                continue
+            if isinstance(st, ast.For) and isinstance(st.target, ast.Name) and isinstance(st.iter, ast.Call) and dotted(st.iter.func) == 'range' \
+                    and len(st.iter.args) == 2 and isinstance(st.iter.args[0], ast.Constant) and st.iter.args[0].value == 1 \
+                    and isinstance(st.iter.args[1], ast.Call) and dotted(st.iter.args[1].func) == 'len' and len(st.body) >= 2 and not st.orelse:
+                S = norm(st.iter.args[1].args[0])
+                iv = st.target.id
+                a, b = st.body[0], st.body[1]
+                if isinstance(a, ast.Assign) and isinstance(b, ast.Assign) and {norm(a.value), norm(b.value)} == {f'{S}[{iv} - 1]', f'{S}[{iv}]'}:
+                    prev, cur = (a, b) if norm(a.value) == f'{S}[{iv} - 1]' else (b, a)
+                    rest = st.body[2:]
+                    if rest and not any(isinstance(x, ast.Name) and x.id == iv for r in rest for x in ast.walk(r)):
+                        seq = ast.parse(f'zip({S}, {S}[1:])', mode='eval').body
+                        tgt = ast.Tuple(elts=[prev.targets[0], cur.targets[0]], ctx=ast.Store())
+                        out.append(ast.copy_location(ast.For(target=tgt, iter=seq, body=rest, orelse=[]), st))
+                        i += 1
+                        continue
+            out.append(st)
+            i += 1
+        return out
+    new.body = fix(new.body)
+    return relink(ast.fix_missing_locations(new))
+
+
+def inline_adjacent_temps(fn: FuncNode) -> FuncNode:
+    """a copy of fn in which a local that is bound once and read exactly once, by the statement that directly follows its binding,
+    is substituted there even when its value contains calls (`buf = f.read(n)` / `unpack(fmt, buf)` reads as
+    `unpack(fmt, f.read(n))`): nothing runs between the two, so only the spelling changes."""
+    new = clone(fn)
+
+    def fix(stmts: List[ast.stmt]) -> List[ast.stmt]:
+        out: List[ast.stmt] = []
+        i = 0
+        while i < len(stmts):
+            st = stmts[i]
+            for fld in ('body', 'orelse', 'finalbody'):
+                sub = getattr(st, fld, None)
+                if isinstance(sub, list) and sub and isinstance(sub[0], ast.stmt):
+                    setattr(st, fld, fix(sub))
+            if isinstance(st, ast.Try):
+                for hd in st.handlers:
+                    hd.body = fix(hd.body)
+            nxt = stmts[i + 1] if i + 1 < len(stmts) else None
+            if isinstance(st, ast.Assign) and len(st.targets) == 1 and isinstance(st.targets[0], ast.Name) and nxt is not None \
+                    and isinstance(nxt, (ast.Assign, ast.Expr, ast.Return, ast.AugAssign, ast.AnnAssign)):
+                name = st.targets[0].id
+                stores = sum(1 for x in ast.walk(new) if isinstance(x, ast.Name) and x.id == name and isinstance(x.ctx, ast.Store))
+                loads = [x for x in ast.walk(new) if isinstance(x, ast.Name) and x.id == name and isinstance(x.ctx, ast.Load)]
+                loads_next = [x for x in ast.walk(nxt) if isinstance(x, ast.Name) and x.id == name and isinstance(x.ctx, ast.Load)]
+                if stores == 1 and len(loads) == 1 and len(loads_next) == 1:
+                    val = st.value
+
+                    class S(ast.NodeTransformer):
+                        def visit_Name(self, node: ast.Name) -> ast.AST:
+                            return clone(val) if isinstance(node.ctx, ast.Load) and node.id == name else node
+                    stmts = stmts[:i + 1] + [S().visit(nxt)] + stmts[i + 2:]
+                    i += 1
+                    continue
+            out.append(st)
+            i += 1
+        return out
+    new.body = fix(new.body)
+    return relink(ast.fix_missing_locations(new))
+
+
+def attribute_copies(fn: FuncNode) -> Dict[str, str]:
+    """local name -> the attribute it is copied to, for locals whose only use is one plain copy `self.x = name`."""
+    out: Dict[str, str] = {}
+    for st in ast.walk(fn):
+        if isinstance(st, ast.Assign) and len(st.targets) == 1 and isinstance(st.targets[0], ast.Attribute) and isinstance(st.value, ast.Name):
+            name = st.value.id
+            loads = [x for x in ast.walk(fn) if isinstance(x, ast.Name) and x.id == name and isinstance(x.ctx, ast.Load)]
+            if len(loads) == 1:
+                out[name] = norm(st.targets[0])
+    return out
+
+
+def temp_values(fn: FuncNode) -> Dict[str, ast.expr]:
+    """name -> value for every local bound exactly once at the top level of fn, with the call-free single-definition
+    temporaries bound before it substituted into the value (the names themselves stay available, unlike inline_pure_temps)."""
+    counts: Dict[str, int] = {}
+    for n in ast.walk(fn):
+        if isinstance(n, ast.Name) and isinstance(n.ctx, ast.Store):
+            counts[n.id] = counts.get(n.id, 0) + 1
+    pure: Dict[str, ast.expr] = {}
+    out: Dict[str, ast.expr] = {}
+
+    class Sub(ast.NodeTransformer):
+        def visit_Name(self, node: ast.Name) -> ast.AST:
+            return clone(pure[node.id]) if isinstance(node.ctx, ast.Load) and node.id in pure else node
+    for st in fn.body:
+        if isinstance(st, ast.Assign) and len(st.targets) == 1 and isinstance(st.targets[0], ast.Name) and counts.get(st.targets[0].id) == 1:
+            val = Sub().visit(clone(st.value))
+            out[st.targets[0].id] = val
+            if not any(isinstance(x, (ast.Await, ast.Yield)) or (isinstance(x, ast.Call) and dotted(x.func) not in PURE_BUILTINS and not (
+                    isinstance(x.func, ast.Attribute) and x.func.attr == 'bit_length' and not x.args)) for x in ast.walk(val)):
+                pure[st.targets[0].id] = val
     return out
